@@ -110,14 +110,14 @@ SUPPORTED_COLL = {255, 45, 33, 8, 11, 63, 224}     # utf8mb4 x2, utf8, latin1, a
 
 def canon_hs(res, payload):
     if isinstance(res, packets.SSLRequest):
-        return "ssl %d %d %d" % (int(res.capabilities), res.max_packet_size, payload[8])
+        return "ssl %d %d %d" % (int(res.capabilities), res.max_packet_size, int(res.client_charset))
     codec = res.client_charset.codec
 
     def e(x):
         return "none" if x is None else hexs(x.encode(codec))
     attrs = ";".join("%s:%s" % (hexs(k.encode(codec)), hexs(v.encode(codec))) for k, v in res.connect_attrs.items())
     return "resp caps=%d max=%d cs=%d user=%s auth=%s db=%s plugin=%s attrs=%s zstd=%d" % (
-        int(res.capabilities), res.max_packet_size, payload[8], e(res.username), hexs(res.auth_response), e(res.database),
+        int(res.capabilities), res.max_packet_size, int(res.client_charset), e(res.username), hexs(res.auth_response), e(res.database),
         e(res.client_plugin), attrs, res.zstd_compression_level)
 
 
@@ -371,7 +371,7 @@ def main():
     finally:
         meter.close()
     cost_probe(chk)
-    model = [canon_model_hs(x) for x in drive(lines)]
+    model = drive(lines)      # dict semantics of the connect attributes are part of the model (Packets.connectAttrs)
     chk.compare("real parsers vs Mimic.Packets / Mimic.Params on mutated payloads", lines, model, impl)
     chk.finish()
 
